@@ -355,12 +355,64 @@ class Emitter:
             return nm
         if isinstance(t, VecT): raise Unsupported('vector type')
         raise Unsupported('type ' + t.key())
+    def lalign(s, t):
+        """ABI alignment of an LLVM type (x86-64 data layout)"""
+        if isinstance(t, IntT):
+            b = (t.bits + 7) // 8; a = 1
+            while a < b: a *= 2
+            return min(a, 16)
+        if isinstance(t, PtrT): return 8
+        if isinstance(t, FloatT): return 4 if t.k == 'float' else 8
+        if isinstance(t, ArrT): return s.lalign(t.e)
+        if isinstance(t, StructT): return 1 if t.packed else max([s.lalign(f) for f in t.fs] or [1])
+        if isinstance(t, NamedT):
+            b = s.m.types.get(t.n); return s.lalign(b) if b is not None else 1
+        return 8
+    def lsize(s, t):
+        if isinstance(t, IntT):
+            b = (t.bits + 7) // 8; a = 1
+            while a < b: a *= 2
+            return a
+        if isinstance(t, PtrT): return 8
+        if isinstance(t, FloatT): return 4 if t.k == 'float' else 8
+        if isinstance(t, ArrT): return t.n * s.lsize(t.e)
+        if isinstance(t, StructT):
+            off = 0
+            for f in t.fs:
+                if not t.packed:
+                    a = s.lalign(f); off = (off + a - 1) // a * a
+                off += s.lsize(f)
+            if not t.packed:
+                a = s.lalign(t); off = (off + a - 1) // a * a
+            return off
+        if isinstance(t, NamedT):
+            b = s.m.types.get(t.n); return s.lsize(b) if b is not None else 1
+        return 8
     def struct_def(s, nm, t):
         if isinstance(t, StructT):
+            def isword(f): return WORD_STORAGE and isinstance(f, ArrT) and isinstance(f.e, IntT) and f.e.bits == 8 and f.n >= 8 and f.n % 8 == 0
+            words_ok = True; attr = ' __attribute__((packed))' if t.packed else ''
+            if not t.packed and any(isword(f) for f in t.fs):
+                # word storage raises the C alignment of the struct to 8; LLVM's alignment of [N x i8] is 1. Keep the LLVM layout:
+                # if the struct has no implicit padding, declare it packed with LLVM's alignment; otherwise use plain bytes.
+                a = s.lalign(t)
+                off = 0
+                for f in t.fs:
+                    fa = s.lalign(f); off = (off + fa - 1) // fa * fa
+                    if isword(f) and off % 8: words_ok = False
+                    off += s.lsize(f)
+                if words_ok and a < 8:
+                    off = 0; nopad = True
+                    for f in t.fs:
+                        if off % s.lalign(f): nopad = False
+                        off += s.lsize(f)
+                    if off % a: nopad = False
+                    if nopad: attr = ' __attribute__((packed%s))' % (', aligned(%d)' % a if a > 1 else '')
+                    else: words_ok = False
             def fdecl(f, i):
                 # raw storage ([N x i8], N multiple of 8) is declared as 64-bit words so that aligned pointer-sized
                 # stores stay whole-element updates for CBMC's field sensitivity (layout unchanged)
-                if WORD_STORAGE and isinstance(f, ArrT) and isinstance(f.e, IntT) and f.e.bits == 8 and f.n >= 8 and f.n % 8 == 0:
+                if words_ok and isword(f):
                     return 'char* f%d[%d];' % (i, f.n // 8)
                 if s.in_union and isinstance(f, IntT) and f.bits == 64: return 'char* f%d;' % i
                 if s.in_union and isinstance(f, StructT) and all(isinstance(x, IntT) and x.bits == 64 for x in f.fs) and f.fs:
@@ -368,7 +420,7 @@ class Emitter:
                 return '%s f%d;' % (s.ctype(f), i)
             fs = ' '.join(fdecl(f, i) for i, f in enumerate(t.fs))
             if not t.fs: fs = ''
-            return '%s { %s }%s;' % (nm, fs, ' __attribute__((packed))' if t.packed else '')
+            return '%s { %s }%s;' % (nm, fs, attr)
         # named alias of non-struct (rare)
         return '%s { %s v; };' % (nm, s.ctype(t))
     def body_of(s, t):
@@ -941,7 +993,7 @@ void vp_native_prop_fail(const char *m); void vp_native_assume_fail(void); void 
 #define VP_ASSUME(c) do { if (!(c)) vp_native_assume_fail(); } while (0)
 #define VP_MODEL_ASSERT(c, m) do { if (!(c)) vp_native_model_fail(m); } while (0)
 #endif
-#define __ll2c_new_typed(T, n) ((char*)(((n) == sizeof(T)) ? malloc(sizeof(T)) : malloc(n)))
+#define __ll2c_new_typed(T, n) ((char*)(((n) <= sizeof(T)) ? malloc(sizeof(T)) : malloc(n)))
 static inline uint64_t __ll2c_ctpop64(uint64_t x){ uint64_t c=0; for(int i=0;i<64;i++) c+=(x>>i)&1; return c; }
 static inline uint32_t __ll2c_ctpop32(uint32_t x){ return (uint32_t)__ll2c_ctpop64(x); }
 static inline uint64_t __ll2c_ctlz64(uint64_t x){ uint64_t c=0; for(int i=63;i>=0;i--){ if((x>>i)&1) break; c++; } return c; }
